@@ -134,7 +134,7 @@ def run(ctx):
                    "Storage (%s case %s, %d-point tables, dt %s) violates the %s law at timestep %s (%s observation): %s"
                    % (c["style"], c["case"], c["n"], c["dt"], law, ev.get("t"), ev["ev"], json.dumps(ev.get("raw"))[:700]), {"event": ev, "case": c})
     ctx.notes["cases"] = {"requested": ncases, "completed": cases_run, "killed_process": crashes, "timesteps": T, "failing_timesteps": len(viols)}
-    ctx.notes["rule"] = ("cases = seeded (tables of 2..5 points x style fill / drawdown / mixed / quiet x timestep 1 h or 1 d); evaluations = timesteps "
+    ctx.notes["rule"] = ("cases = seeded (tables of 2..5 points x style fill / drawdown / mixed / quiet / weir x timestep 1 h or 1 d); evaluations = timesteps "
                          "judged by TLC against the laws of TraceStorage.tla; distinct_nontrivial = cases that ran to the end")
     # binding self-test: a perturbed balance residual must be reported
     ks = [i for i, e in enumerate(evs) if e["ev"] == "step" and e["balresid"] <= e["baltol"]]
